@@ -57,11 +57,12 @@ META = {
                 "request arrived, the packet is that value in the configured byte order with the current toggle, an "
                 "unacknowledged packet is repeated unchanged, the toggle flips exactly on ACK. TLC proves the host-side "
                 "theorem (values accepted by a toggle-checking host = values latched, once each) on the model; the real "
-                "USBSignalInEndpoint (widths 1, 8, 9, 16, 24; both endiannesses) in a real USBDevice is polled with "
+                "USBSignalInEndpoint (widths 1..64, both endiannesses, signal_domain 'usb' and a foreign domain) in a real USBDevice "
+                "with a second IN endpoint is polled with "
                 "ACK / no-ACK / intervening-traffic patterns while the signal changes at arbitrary cycles, and every "
                 "poll is validated by TLC.",
         "note": "The sampling instant is allowed anywhere between the first byte of the IN token and the first byte "
-                "of the answer. Legal host. signal_domain other than 'usb' is out of scope.",
+                "of the answer (reaching 3 cycles further back for a signal from another clock domain). Legal host.",
         "technique": "TLA+ event-grain spec, TLC exhaustive + trace validation",
         "design_ref": "DESIGN.md §5 C17",
     },
